@@ -29,6 +29,8 @@ STD_PANICKING = {
     "core::str::<impl str>": ("split_at",),
     "std::collections::VecDeque": ("swap", "insert", "split_off", "drain"),
     "std::cell::RefCell": ("borrow", "borrow_mut"),
+    # panic on an empty name, a name containing `=` and on NUL bytes
+    "std::env": ("set_var", "remove_var"),
 }
 PANIC_MACROS = ("panic", "unreachable", "unimplemented", "todo", "assert", "assert_eq", "assert_ne")
 
@@ -155,8 +157,52 @@ def discharged_locally(prog, fn, b, kind):
     return None
 
 
+def _witness_zero_test_on_divisor(prog, w):
+    """every `%` / `/` on integers in the function divides by the payload of a value X, and a call
+    `is_approximately_zero(&X)` (the function's zero test) on that same X dominates the operation"""
+    f = prog.fn_opt(w["fn"])
+    if f is None:
+        cands = [g for g in prog.fns.values() if g.path == w["fn"] or g.path.endswith("::" + w["fn"])]
+        f = cands[0] if len(cands) == 1 else None
+    if f is None:
+        raise CheckError("witness anchor %s not found" % w["fn"])
+    body = f.body
+    pv = mir.Prov(body)
+    tests = []
+    for b, t in body.calls():
+        if (t.get("cpath") or "").split("::")[-1] in ("is_approximately_zero", "is_zero") and t["args"]:
+            tests.append((b, mir.strip_all(pv.of_operand(t["args"][0]))))
+    n = 0
+    for b, blk in enumerate(body.blocks):
+        if body.is_cleanup(b):
+            continue
+        for st in blk["s"]:
+            r = st.get("r", {})
+            if st["k"] != "assign" or r.get("k") != "bin" or r.get("op") not in ("Rem", "Div"):
+                continue
+            ty = body.locals[st["p"][0]]["ty"]
+            if ty not in ("i32", "i64"):
+                continue
+            n += 1
+            o = mir.strip_all(pv.of_operand(r["b"]))
+            # the payload of a numeric Variant: (X as VInteger).0 -> X
+            if o[0] == "field" and mir.strip_all(o[1])[0] == "downcast" and \
+                    str(mir.strip_all(o[1])[2]) in ("VInteger", "VLong", "VSingle", "VDouble"):
+                o = mir.strip_all(mir.strip_all(o[1])[1])
+            if not any(body.dominates(tb, b) and to == o for tb, to in tests):
+                w["_why"] = "the divisor of the `%s` at line %s is %s, but the zero test is applied to %s" % (
+                    "%" if r["op"] == "Rem" else "/", st.get("ln"), mir.short_origin(o),
+                    [mir.short_origin(to) for _tb, to in tests] or "nothing")
+                return False
+    if n == 0:
+        raise CheckError("witness %s: no integer division found" % w["fn"])
+    return True
+
+
 def witness_holds(prog, w):
     """re-check one machine-checkable part of an audited invariant (tables/panic_witnesses.json)."""
+    if w["kind"] == "zero_test_on_divisor":
+        return _witness_zero_test_on_divisor(prog, w)
     if w["kind"] != "parser_mandatory":
         raise CheckError("unknown witness kind %s" % w["kind"])
     root = prog.fn_opt(w["fn"])
